@@ -307,7 +307,13 @@ def charsLe : List Char → List Char → Bool
   | _ :: _, [] => false
   | a :: as, b :: bs => if a.toNat < b.toNat then true else if b.toNat < a.toNat then false else charsLe as bs
 
-def sortNames (xs : List (List Char)) : List (List Char) := xs.mergeSort charsLe
+def insertName (x : List Char) : List (List Char) → List (List Char)
+  | [] => [x]
+  | y :: ys => if charsLe x y then x :: y :: ys else y :: insertName x ys
+
+/-- `sort()` / `sort_by_key(file_name)`: byte-wise (= code point) order; insertion sort, so that it
+reduces in the kernel -/
+def sortNames (xs : List (List Char)) : List (List Char) := xs.foldr insertName []
 
 /-- `…to_string_lossy().replace('\\', "/")` -/
 def unBackslash (s : List Char) : List Char := s.map fun c => if c = '\\' then '/' else c
